@@ -118,6 +118,11 @@ class Negotiated:
         )
 
         self.local_as = self.sent_open.asn
+        if self.sent_open.asn == AS_TRANS:
+            # our own AS does not fit the 2-byte OPEN field: its true value is in the ASN4 capability we sent
+            sent_asn4 = sent_capa.get(Capability.CODE.FOUR_BYTES_ASN, None)
+            if isinstance(sent_asn4, ASN):
+                self.local_as = sent_asn4
         self.peer_as = self.received_open.asn
         if self.received_open.asn == AS_TRANS and self.asn4:
             asn4_capa = recv_capa.get(Capability.CODE.FOUR_BYTES_ASN, None)
